@@ -11,52 +11,72 @@
               and `seen` is the published length
      Slice    the slice handed out is the published length (<= written)   (ReadsBelowWritten)
      ReadOk   the bytes read equal the stored bytes
-     CacheGet the cache never holds more than its capacity *)
-EXTENDS Naturals, Sequences, FiniteSets, TLC, Json, IOUtils
+     CacheGet the cache never holds more than its capacity; policy level: hit / miss and the
+              number of cached clusters are the ones the LRU policy of Lru.tla gives for the
+              sequence of accesses seen so far (the hook fires inside the cache mutex, so the
+              log order is the order of the critical sections) *)
+EXTENDS Naturals, Sequences, FiniteSets, TLC, Json, IOUtils, Lru
 
 CONSTANT CacheSlots
 Rec == ndJsonDeserialize(IOEnv.TRACE)
-VARIABLES l, bufs      \* bufs: buffer id -> [total, written, published, failed]
-tvars == <<l, bufs>>
-TraceInit == l = 1 /\ bufs = <<>>
+VARIABLES l, bufs,     \* bufs: buffer id -> [total, written, published, failed]
+          built, drift, \* cluster objects whose plain reader was built; policy-level departures
+          cache         \* the cluster cache as Lru.tla predicts it (cluster numbers, most recent first)
+tvars == <<l, bufs, built, drift, cache>>
+TraceInit == l = 1 /\ bufs = <<>> /\ built = {} /\ drift = 0 /\ cache = <<>>
 IsEvent(e) == l <= Len(Rec) /\ Rec[l].ev = e /\ l' = l + 1
 Known(b) == b \in DOMAIN bufs
 Upd(b, rec) == [x \in DOMAIN bufs \cup {b} |-> IF x = b THEN rec ELSE bufs[x]]
 
-TraceRun == IsEvent("Run") /\ bufs' = <<>>
+TraceRun == IsEvent("Run") /\ bufs' = <<>> /\ built' = {} /\ cache' = <<>> /\ UNCHANGED drift
 TraceBuf ==
   /\ IsEvent("Buf")
   /\ bufs' = Upd(Rec[l].buf, [total |-> Rec[l].a, written |-> 0, published |-> 0, failed |-> FALSE])
+  /\ UNCHANGED <<built, drift, cache>>
 TraceWrite ==
   /\ IsEvent("Write") /\ Known(Rec[l].buf)
   /\ LET s == bufs[Rec[l].buf] IN
        /\ (Rec[l].a >= s.written /\ Rec[l].a <= s.total) = TRUE
        /\ bufs' = Upd(Rec[l].buf, [s EXCEPT !.written = Rec[l].a])
+  /\ UNCHANGED <<built, drift, cache>>
 TracePublish ==
   /\ IsEvent("Publish") /\ Known(Rec[l].buf)
   /\ LET s == bufs[Rec[l].buf] IN
        /\ (Rec[l].a >= s.published /\ Rec[l].a <= s.written) = TRUE
        /\ bufs' = Upd(Rec[l].buf, [s EXCEPT !.published = Rec[l].a])
+  /\ UNCHANGED <<built, drift, cache>>
 TraceFail ==
   /\ IsEvent("Fail") /\ Known(Rec[l].buf)
   /\ bufs' = Upd(Rec[l].buf, [bufs[Rec[l].buf] EXCEPT !.failed = TRUE])
+  /\ UNCHANGED <<built, drift, cache>>
 TraceWaitDone ==
   /\ IsEvent("WaitDone") /\ Known(Rec[l].buf)
   /\ LET s == bufs[Rec[l].buf] IN
        (Rec[l].b = s.published /\ (Rec[l].b >= Rec[l].a \/ s.failed)) = TRUE
-  /\ UNCHANGED bufs
+  /\ UNCHANGED <<bufs, built, drift, cache>>
 TraceSlice ==
   /\ IsEvent("Slice") /\ Known(Rec[l].buf)
   /\ LET s == bufs[Rec[l].buf] IN (Rec[l].a = s.published /\ Rec[l].a <= s.written) = TRUE
+  /\ UNCHANGED <<bufs, built, drift, cache>>
+TraceCacheGet ==
+  /\ IsEvent("CacheGet") /\ (Rec[l].size <= CacheSlots) = TRUE
+  /\ drift' = drift + (IF Rec[l].hit = (Rec[l].cluster \in Keys(cache)) /\ Rec[l].size = Len(cache) THEN 0 ELSE 1)
+  /\ cache' = Touch(cache, Rec[l].cluster, CacheSlots)
+  \* a miss creates a cluster object, possibly at the address of one that was freed: addresses identify objects only between misses
+  /\ built' = IF Rec[l].hit THEN built ELSE {}
   /\ UNCHANGED bufs
-TraceCacheGet == IsEvent("CacheGet") /\ (Rec[l].size <= CacheSlots) = TRUE /\ UNCHANGED bufs
-TraceBuildPlain == IsEvent("BuildPlain") /\ UNCHANGED bufs
-TraceReadOk == IsEvent("ReadOk") /\ Rec[l].res = "equal" /\ UNCHANGED bufs
-TraceConcDone == IsEvent("ConcDone") /\ Rec[l].ok /\ UNCHANGED bufs
+(* policy level: the plain reader of one cluster object is built once (decoding it twice is wasteful, not wrong);
+   objects are known by address, which is only meaningful until the next miss *)
+TraceBuildPlain == /\ IsEvent("BuildPlain")
+                   /\ drift' = drift + (IF Rec[l].buf \in built THEN 1 ELSE 0)
+                   /\ built' = built \cup {Rec[l].buf} /\ UNCHANGED <<bufs, cache>>
+TraceReadOk == IsEvent("ReadOk") /\ Rec[l].res = "equal" /\ UNCHANGED <<bufs, built, drift, cache>>
+TraceConcDone == IsEvent("ConcDone") /\ Rec[l].ok /\ UNCHANGED <<bufs, built, drift, cache>>
 
 TraceNext == TraceRun \/ TraceBuf \/ TraceWrite \/ TracePublish \/ TraceFail \/ TraceWaitDone \/ TraceSlice
              \/ TraceCacheGet \/ TraceBuildPlain \/ TraceReadOk \/ TraceConcDone
 TraceSpec == TraceInit /\ [][TraceNext]_tvars
+Done == (l = Len(Rec) + 1) => PrintT(<<"DRIFT", drift>>)
 TraceAccepted ==
   LET d == TLCGet("stats").diameter IN
   IF d - 1 = Len(Rec) THEN TRUE
